@@ -4,6 +4,8 @@ package main
 
 import (
 	"fmt"
+	"go/types"
+	"reflect"
 	"strings"
 
 	"golang.org/x/tools/go/ssa"
@@ -390,4 +392,320 @@ func checkLockCacheKey(c *Check) {
 
 func init() {
 	sharedRules = append(sharedRules, sharedRule{Suffix: "CACHEKEY", Props: []string{"C03", "C06", "C15"}, Body: checkLockCacheKey, Doc: "(CACHEKEY) every access to the lock cache uses buildFullPath(path) as its key"})
+}
+
+// ADAPTERSENT: the sentinels each method of the optimisation registry adapter tolerates (read against the source).
+var adapterSentinels = map[string][]string{
+	"(*app/dcs.OptimizationDCSAdapter).initDcs":     {"dcs.ErrExists"},
+	"(*app/dcs.OptimizationDCSAdapter).GetHosts":    nil,
+	"(*app/dcs.OptimizationDCSAdapter).SetState":    nil,
+	"(*app/dcs.OptimizationDCSAdapter).GetState":    {"dcs.ErrNotFound"}, // an unreadable record is an error, not "not registered"
+	"(*app/dcs.OptimizationDCSAdapter).DeleteHosts": {"dcs.ErrNotFound"},
+	"(*app/dcs.OptimizationDCSAdapter).CreateHosts": {"dcs.ErrExists"},
+}
+
+func checkAdapterSentinels(c *Check) {
+	p := c.p
+	for name, want := range adapterSentinels {
+		F := p.MustFunc(name)
+		tested := map[string]bool{}
+		for _, f := range Closures(F) {
+			for _, b := range f.Blocks {
+				for _, in := range b.Instrs {
+					if call, ok := in.(*ssa.Call); ok && matchName(p.CalleeNames(call), "errors.Is") {
+						if t := p.T(call.Call.Args[1]); t.Op == "global" {
+							tested[t.Name] = true
+						}
+					}
+				}
+			}
+		}
+		var ts []string
+		for t := range tested {
+			ts = append(ts, t)
+		}
+		sortStrings(ts)
+		w := append([]string{}, want...)
+		sortStrings(w)
+		c.Req(strings.Join(ts, " ") == strings.Join(w, " "), name, p.Pos(F.Pos()), "adapter:sentinels", "the registry adapter tolerates exactly the sentinels of its contract ("+strings.Join(w, ", ")+"): a record that cannot be decoded is an error — treating it as 'not registered' hides a relaxed host from the sync", "tests "+strings.Join(ts, ", "))
+	}
+}
+
+func sortStrings(s []string) {
+	for i := 1; i < len(s); i++ {
+		for j := i; j > 0 && s[j] < s[j-1]; j-- {
+			s[j], s[j-1] = s[j-1], s[j]
+		}
+	}
+}
+
+// SETTINGSARGS: each durability statement is bound to the settings field of the same name.
+func checkSettingsArgs(c *Check) {
+	p := c.p
+	want := map[string]string{"level": "InnodbFlushLogAtTrxCommit", "sync_binlog": "SyncBinlog"}
+	n := 0
+	for _, fname := range []string{"(*mysql.Node).SetReplicationSettings", "(*mysql.Node).SetDefaultReplicationSettings"} {
+		F := p.MustFunc(fname)
+		for _, b := range F.Blocks {
+			for _, in := range b.Instrs {
+				mu, ok := in.(*ssa.MapUpdate)
+				if !ok {
+					continue
+				}
+				k := p.T(mu.Key)
+				f, ok := want[k.Name]
+				if !ok || k.Op != "const" {
+					continue
+				}
+				n++
+				v := p.T(underIface(mu.Value))
+				c.Req(mentions(p, v, f), p.Name(F), p.InstrPos(mu), nthKey("settings:"+k.Name, n), "the statement parameter :"+k.Name+" is bound to the settings field "+f, "bound to "+v.String())
+			}
+		}
+		// and each parameter map goes to its own statement
+		for _, ci := range p.Calls(F, "(*mysql.Node).exec") {
+			q := p.T(ci.Common().Args[1])
+			arg := ci.Common().Args[2]
+			keys := map[string]bool{}
+			if mm, ok := arg.(*ssa.MakeMap); ok {
+				for _, r := range *mm.Referrers() {
+					if mu, ok := r.(*ssa.MapUpdate); ok {
+						keys[p.T(mu.Key).Name] = true
+					}
+				}
+			}
+			switch q.Name {
+			case "set_innodb_flush_log_at_trx_commit":
+				c.Req(keys["level"] && len(keys) == 1, p.Name(F), p.InstrPos(ci), "settings:stmt:flush", "the flush-log statement receives :level", fmt.Sprint(keys))
+			case "set_sync_binlog":
+				c.Req(keys["sync_binlog"] && len(keys) == 1, p.Name(F), p.InstrPos(ci), "settings:stmt:sync_binlog", "the sync_binlog statement receives :sync_binlog", fmt.Sprint(keys))
+			}
+		}
+	}
+	c.Req(n >= 4, "internal/mysql/node.go", "-", "settings:bindings", "parameter bindings found", fmt.Sprintf("%d", n))
+}
+
+// HEALTHTICK: every tick of the health loop publishes the record (no path from the tick back to the select skips the write).
+func checkHealthTick(c *Check) {
+	p := c.p
+	H := p.MustFunc("(*app.App).healthChecker")
+	fa := p.FA(H)
+	var sel *ssa.Select
+	for _, b := range H.Blocks {
+		for _, in := range b.Instrs {
+			if s, ok := in.(*ssa.Select); ok {
+				sel = s
+			}
+		}
+	}
+	if sel == nil {
+		panic(AnchorError{"select in healthChecker"})
+	}
+	write := p.Calls(H, "(*app.App).SetHealthState")
+	if !c.Req(len(write) == 1, p.Name(H), "-", "health:write-site", "one site publishes the record", fmt.Sprintf("%d", len(write))) {
+		return
+	}
+	collect := p.Calls(H, "(*app.App).getLocalNodeState")
+	if !c.Req(len(collect) == 1, p.Name(H), "-", "health:collect-site", "one site collects the local state", "") {
+		return
+	}
+	// from the collection, the next select (next tick) is reachable only through the write
+	path, _ := fa.ReachAfter(collect[0], func(in ssa.Instruction) bool { return in == ssa.Instruction(sel) }, ReachOpts{Barrier: func(in ssa.Instruction) bool { return in == write[0].(ssa.Instruction) }})
+	c.Req(path == nil, p.Name(H), p.InstrPos(write[0]), "health:every-tick-writes", "every tick publishes the health record: the record is ephemeral and vanishes with the session, so a 'nothing changed, skip the write' shortcut leaves a live mysync without a record after a session expiry", "path from the collection to the next tick without the write: "+fa.PathString(path))
+	// the record written is the one just collected, for this host
+	a := write[0].Common().Args
+	c.Req(p.T(a[1]).IsField("Hostname") && p.T(a[2]).V == collect[0].(ssa.Value), p.Name(H), p.InstrPos(write[0]), "health:record", "the record published is this host's, just collected", "")
+}
+
+// DURATIONS: a duration default is a multiple of a time unit (a bare integer is nanoseconds).
+func checkDurationDefaults(c *Check) {
+	p := c.p
+	D := p.MustFunc("config.DefaultConfig")
+	n := 0
+	for _, b := range D.Blocks {
+		for _, in := range b.Instrs {
+			st, ok := in.(*ssa.Store)
+			if !ok {
+				continue
+			}
+			f, ok := st.Addr.(*ssa.FieldAddr)
+			if !ok {
+				continue
+			}
+			if st.Val.Type().String() != "time.Duration" {
+				continue
+			}
+			k, ok := st.Val.(*ssa.Const)
+			if !ok || k.Value == nil {
+				continue
+			}
+			n++
+			v, _ := constantInt(k)
+			c.Req(v == 0 || v >= 1_000_000, p.Name(D), p.InstrPos(in), "duration:"+afterDot(fieldName(f.X.Type(), f.Field)), "a duration default is zero or at least a millisecond: a bare number without a unit is nanoseconds (a 60 ns deadline has expired before the statement is sent)", fmt.Sprintf("%d ns", v))
+		}
+	}
+	c.Req(n >= 25, p.Name(D), "-", "duration:defaults", "duration defaults found", fmt.Sprintf("%d", n))
+}
+
+// CONFIGTAGS: the key a field is read from in the YAML file is the key it is documented under.
+func checkConfigTags(c *Check) {
+	p := c.p
+	pk := p.Pkg("internal/config")
+	n := 0
+	for _, name := range pk.Types.Scope().Names() {
+		tn, ok := pk.Types.Scope().Lookup(name).(*types.TypeName)
+		if !ok {
+			continue
+		}
+		st, ok := tn.Type().Underlying().(*types.Struct)
+		if !ok {
+			continue
+		}
+		for i := 0; i < st.NumFields(); i++ {
+			tag := reflect.StructTag(st.Tag(i))
+			ct, hasC := tag.Lookup("config")
+			if !hasC {
+				continue
+			}
+			ct = strings.Split(ct, ",")[0]
+			yt, hasY := tag.Lookup("yaml")
+			eff := strings.ToLower(st.Field(i).Name())
+			if hasY {
+				eff = strings.Split(yt, ",")[0]
+			}
+			n++
+			c.Req(eff == ct, "config."+name, p.Pos(st.Field(i).Pos()), "tag:"+name+"."+st.Field(i).Name(), "the YAML key of a configuration field is its documented key: without a yaml tag the decoder uses the lower-cased field name, which differs as soon as the key has an underscore (the setting is then silently ignored and the default applies)", "read from '"+eff+"', documented as '"+ct+"'")
+		}
+	}
+	c.Req(n >= 80, "internal/config", "-", "tag:fields", "configuration fields found", fmt.Sprintf("%d", n))
+}
+
+// SNAPSHOTARGS: a function that takes both state maps receives them in the same roles at every call site.
+func checkSnapshotArgs(c *Check) {
+	p := c.p
+	na := newNilAnalysis(c)
+	n := 0
+	for _, fn := range na.funcs {
+		var mapParams []int
+		for i, pa := range fn.Params {
+			if isStateMapType(pa.Type()) {
+				mapParams = append(mapParams, i)
+			}
+		}
+		if len(mapParams) < 2 {
+			continue
+		}
+		sites := na.callSites[fn]
+		for _, idx := range mapParams {
+			var kinds []string
+			for _, cs := range sites {
+				if idx >= len(cs.Args) || cs.Args[idx] == nil {
+					continue
+				}
+				if na.isSecondSnapshot(cs.Caller, cs.Args[idx], 0) {
+					kinds = append(kinds, "health-records")
+				} else {
+					kinds = append(kinds, "collected")
+				}
+			}
+			same := true
+			for _, k := range kinds {
+				if k != kinds[0] {
+					same = false
+				}
+			}
+			if len(kinds) == 0 {
+				continue
+			}
+			n++
+			if !same {
+				if why, ok := snapshotExceptions[fmt.Sprintf("%s#%d", p.Name(fn), idx)]; ok {
+					c.Hold(p.Name(fn), p.Pos(fn.Pos()), fmt.Sprintf("snapshot-arg#%d:exception", idx), "listed exception: "+why)
+					continue
+				}
+			}
+			c.Req(same, p.Name(fn), p.Pos(fn.Pos()), fmt.Sprintf("snapshot-arg#%d", idx), "each state-map parameter receives the same kind of snapshot (collected from the servers / read from the health records) at every call site: the disk-space guard, the keep-alive rule and the failure clock read fields that only the health records carry", strings.Join(kinds, ", "))
+		}
+	}
+	c.Req(n >= 6, "internal/app", "-", "snapshot-args", "two-map functions found", fmt.Sprintf("%d", n))
+}
+
+var snapshotExceptions = map[string]string{
+	"(*app.App).updateActiveNodes#2": "the switchover procedure rebuilds the list right after the promotion from a freshly collected state and has no health records at hand; the keep-alive rule then simply finds nobody alive in them",
+	"(*app.App).calcActiveNodes#2":   "same call chain",
+}
+
+// REFRESH: state is collected from a registry that was refreshed first.
+func checkRegistryRefresh(c *Check) {
+	p := c.p
+	n := 0
+	for _, fname := range []string{"(*app.App).stateManager", "(*app.App).leaveMaintenance", "(*app.App).stateCandidate"} {
+		F := p.MustFunc(fname)
+		fa := p.FA(F)
+		for _, ci := range p.Calls(F, "(*app.App).getClusterStateFromDB", "(*app.App).getClusterStateFromDcs") {
+			// only the first collection of the function needs it (later ones re-read inside the same iteration)
+			if ok, _ := fa.PrecededBy(ci, isCallTo(p, "(*app.App).getClusterStateFromDB")); ok && !p.siteIs(ci, "(*app.App).getClusterStateFromDB") {
+				continue
+			}
+			if ok, _ := fa.PrecededBy(ci, func(in ssa.Instruction) bool {
+				return in != ci.(ssa.Instruction) && isCallTo(p, "(*app.App).getClusterStateFromDB")(in)
+			}); ok {
+				continue
+			}
+			n++
+			okp, path := fa.PrecededBy(ci, isCallTo(p, "(*mysql.Cluster).UpdateHostsInfo"))
+			c.Req(okp, p.Name(F), p.InstrPos(ci), nthKey("refresh:"+afterDot(fname), n), "the host registry is refreshed before the cluster state is collected: hosts added, removed or turned into cascade replicas since the last refresh — also during maintenance, whose handler never refreshes — are seen in their new role", "path: "+fa.PathString(path))
+		}
+	}
+	c.Req(n >= 2, "internal/app", "-", "refresh:sites", "first collections found", fmt.Sprintf("%d", n))
+}
+
+func init() {
+	sharedRules = append(sharedRules,
+		sharedRule{Suffix: "ADAPTERSENT", Props: []string{"C19"}, Body: checkAdapterSentinels, Doc: "(ADAPTERSENT) the optimisation registry adapter tolerates exactly the sentinels of its contract"},
+		sharedRule{Suffix: "SETTINGSARGS", Props: []string{"C19"}, Body: checkSettingsArgs, Doc: "(SETTINGSARGS) each durability statement is bound to the settings field of the same name"},
+		sharedRule{Suffix: "HEALTHTICK", Props: []string{"C05", "C15"}, Body: checkHealthTick, Doc: "(HEALTHTICK) every tick of the health loop publishes this host's freshly collected record"},
+		sharedRule{Suffix: "DURATIONS", Props: []string{"C08", "C18"}, Body: checkDurationDefaults, Doc: "(DURATIONS) every duration default is zero or at least a millisecond"},
+		sharedRule{Suffix: "CONFIGTAGS", Props: []string{"C04", "C05", "C12", "C17", "C18"}, Body: checkConfigTags, Doc: "(CONFIGTAGS) the YAML key a configuration field is read from is its documented key"},
+		sharedRule{Suffix: "SNAPSHOTARGS", Props: []string{"C18", "C04", "C05"}, Body: checkSnapshotArgs, Doc: "(SNAPSHOTARGS) each state-map parameter receives the same kind of snapshot at every call site"},
+		sharedRule{Suffix: "REFRESH", Props: []string{"C09", "C16", "C10"}, Body: checkRegistryRefresh, Doc: "(REFRESH) the host registry is refreshed before the cluster state is collected"},
+	)
+}
+
+// TIMINGS: the failure clocks are per (kind, host): every accessor reads or writes exactly the entry of the kind and host given.
+func checkTimings(c *Check) {
+	p := c.p
+	n := 0
+	for _, m := range []string{"Get", "Set", "SetIfZero", "Clean"} {
+		F := p.MustFunc("(*app.Timings)." + m)
+		for _, b := range F.Blocks {
+			for _, in := range b.Instrs {
+				switch x := in.(type) {
+				case *ssa.MapUpdate:
+					n++
+					inner := p.T(x.Map)
+					okm := inner.Op == "lookup" && inner.Args[0].IsField("m") && isParam(inner.Args[1], "1")
+					c.Req(okm && isParam(p.T(x.Key), "2"), p.Name(F), p.InstrPos(in), nthKey("timings:write:"+m, n), "a clock is written at exactly (kind, host) given", "writes "+inner.String()+"["+p.T(x.Key).String()+"]")
+					if m == "Clean" {
+						c.Req(strings.HasPrefix(p.T(x.Value).Name, "zero:") || p.T(x.Value).Op == "load" || p.T(x.Value).Op == "alloc" || p.T(x.Value).Op == "const", p.Name(F), p.InstrPos(in), "timings:clean:zero", "cleaning stores the zero time", "stores "+p.T(x.Value).String())
+					}
+				case *ssa.Lookup:
+					if p.T(x.X).Op == "lookup" {
+						n++
+						inner := p.T(x.X)
+						c.Req(inner.Args[0].IsField("m") && isParam(inner.Args[1], "1") && isParam(p.T(x.Index), "2"), p.Name(F), p.InstrPos(in), nthKey("timings:read:"+m, n), "a clock is read at exactly (kind, host) given", "")
+					}
+				case *ssa.Call:
+					if bi, ok := x.Call.Value.(*ssa.Builtin); ok && (bi.Name() == "clear" || bi.Name() == "delete") {
+						c.Fail(p.Name(F), p.InstrPos(in), "timings:"+m+":"+bi.Name(), "an accessor touches one entry only: the other hosts' clocks of the same kind keep running (clearing them restarts every inactivation / failover delay on each tick)", "calls "+bi.Name())
+					}
+				}
+			}
+		}
+	}
+	c.Req(n >= 5, "internal/app/timings.go", "-", "timings:accesses", "clock accesses found", fmt.Sprintf("%d", n))
+}
+
+func init() {
+	sharedRules = append(sharedRules, sharedRule{Suffix: "TIMINGS", Props: []string{"C04", "C05", "C08"}, Body: checkTimings, Doc: "(TIMINGS) the failure clocks are read and written at exactly the (kind, host) entry given; nothing clears a whole kind"})
 }
